@@ -61,6 +61,7 @@ def _case(draw, fire=False):
         # how the atmosphere is given: all values explicit; altitude only (standard conditions there, the air - and so the
         # powder - is colder than at sea level); the ICAO constructor; no atmosphere at all (standard sea level)
         case["atmo_form"] = draw(st.sampled_from(["explicit", "explicit", "altitude-only", "icao", "none"]))
+        case["prior_air_c"] = draw(st.one_of(st.none(), st.floats(-40.0, 50.0)))
     return case
 
 
@@ -189,7 +190,16 @@ def check_fire(case):
         # the linear law may extrapolate to speeds below the solver's minimum-velocity limit: nothing to fire
         r.label("fire-skipped-too-slow")
         return r
-    hit = pb.Calculator().fire(shot, pb.Distance.Foot(30.0), pb.Distance.Foot(10.0))
+    calc = pb.Calculator()
+    if case.get("prior_air_c") is not None:
+        # history: the same calculator has just fired the same ammunition in air of another temperature
+        try:
+            calc.fire(pb.Shot(pb.Weapon(pb.Distance.Inch(2)), ammo, atmo=pb.Atmo(temperature=pb.Temperature.Celsius(case["prior_air_c"]))),
+                      pb.Distance.Foot(30.0), pb.Distance.Foot(10.0))
+        except pb.RangeError:
+            pass
+        r.label("calculator-fired-same-ammo-in-other-air")
+    hit = calc.fire(shot, pb.Distance.Foot(30.0), pb.Distance.Foot(10.0))
     got = hit.trajectory[0].velocity >> pb.Velocity.MPS
     if not abs(got - exp) <= REL * max(abs(exp), 1.0) + (abs(m * v0) * slack_c / 15.0 if enabled else 0.0):
         which = "given powder temperature" if given_pt else "air temperature"
